@@ -81,6 +81,10 @@ def rand_dep(rng, ids_):
         d["stylesheet"] = (d["stylesheet"] if isinstance(d.get("stylesheet"), list) else [d["stylesheet"]] if d.get("stylesheet") else []) + [{"href": "k.css", "cross_origin": "x"}]
     if rng.random() < 0.5:
         d["head"] = [gen.TAG("title", {"k": "text", "s": ids_.next("T")}), {"k": "html", "s": "<link rel=\"x\">"}]
+        if rng.random() < 0.5:
+            # head tags that refer to files by relative URL (they are written as given)
+            d["head"] += [gen.TAG("script", attrs=[["src", {"t": "str", "s": "init.js"}]], via_fn=False), gen.TAG("link", attrs=[["href", {"t": "str", "s": "theme/x.css"}], ["rel", {"t": "str", "s": "preload"}]], via_fn=False),
+                          gen.TAG("img", attrs=[["src", {"t": "str", "s": "./pic.png"}]], ws=False, via_fn=False)][: rng.randint(1, 3)]
     elif rng.random() < 0.3:
         d["head"] = "<meta name=\"raw\" content=\"" + ids_.next("r") + "\">"
     return d
@@ -135,12 +139,13 @@ def rand_root(rng, ids_, allow_tf=True):
             content = [gen.TAG("body", *kids, via_fn=False, attrs=[["class", {"t": "str", "s": "b"}]])]
         elif shape == "html":
             content = [gen.TAG("html", gen.TAG("head", gen.TAG("title", {"k": "text", "s": "T"}), via_fn=False), gen.TAG("body", *kids, via_fn=False),
-                               via_fn=False, attrs=[["lang", {"t": "str", "s": "fr"}]])]
+                               via_fn=False, attrs=[["lang", {"t": "str", "s": "fr"}], ["class", {"t": "str", "s": "page"}], ["style", {"t": "str", "s": "margin:0;"}], ["id", {"t": "str", "s": "top"}]][: rng.randint(1, 4)])]
         elif shape == "html_nohead":
             content = [gen.TAG("html", gen.TAG("body", *kids, via_fn=False), via_fn=False)]
         else:
             content = [gen.TAG("html", *kids[:1], gen.TAG("head", via_fn=False), gen.TAG("body", *kids[1:], via_fn=False), via_fn=False)]
-        kw = rng.choice([{}, {"lang": "en"}, {"lang": "en", "class_": "doc"}, {"data_x": True}])
+        kw = rng.choice([{}, {"lang": "en"}, {"lang": "en", "class_": "doc"}, {"data_x": True}, {"class_": "dark", "style": "color:red;"}, {"class": "a", "class_": "b", "id": "other"},
+                         {"style": "x:y;", "title": "t", "lang": None}])
         return ("doc", {"content": content, "kw": kw})
     return ("dep", rand_dep(rng, ids_))
 
@@ -443,6 +448,20 @@ def run_history(ctx, h, scratch):
                 return False
         else:
             first[name] = rf
+        # what an operation RETURNS is the caller's: overwriting the top level of a returned mapping / list changes neither the
+        # receiver nor what the next call (on this or any other object) returns
+        if name not in ("tagify", "copy") and type(res) in (dict, list, ht.TagList):
+            ctx.count("monitor.results_overwritten_by_caller")
+            if type(res) is dict:
+                for k_ in list(res):
+                    res[k_] = "overwritten by the caller"
+                res["added by the caller"] = 1
+            else:
+                del res[:]
+                res.append("overwritten by the caller")
+            if fp(obj) != base:
+                ctx.violation("result-aliases-receiver", "overwriting the top level of what %s returned changed the receiver" % name, dict(wit, op=name))
+                return False
         ctx.state("ops_observed", (kind, name))
     if kind in ("tag", "list"):
         return check_views_and_copy(ctx, obj, kind, r, wit, rng)
